@@ -105,6 +105,14 @@ func (b *backend) realID(box string, rank int) string {
 			return id
 		}
 	}
+	if rank >= 20000 { // another SPELLING of a real id (leading zero, sign, trailing blank, other letter case): names no message
+		base := b.realID(box, (rank-20000)/10)
+		alt := []string{"0" + base, "+" + base, base + " ", strings.ToLower(base)}[rank%10%4]
+		if alt == base {
+			alt = "0" + base
+		}
+		return alt
+	}
 	switch rank { // ids that name no message but mean something to other interfaces ("latest" is an alias of GetMessage only)
 	case 9100:
 		return "latest"
@@ -416,10 +424,18 @@ func genHistory(r *rand.Rand, p storeProfile, names []string, nOps int) []storeO
 				to[i] = fmt.Sprintf("rcpt%d@dest.org", r.Intn(9))
 			}
 			adds[box]++
+			opDate := date
+			if r.Intn(12) == 0 { // boundary instants: the zero time.Time, the Unix epoch and its neighbours, before 1970, the year 9999
+				opDate = []int64{-62135596800, 0, 1, -1, -86400 * 365 * 30, 253402300799}[r.Intn(6)]
+			}
 			ops = append(ops, storeOp{kind: "add", box: box, body: genBody(r, r.Intn(100) < p.bigPct), from: fmt.Sprintf("s%d@src.net", r.Intn(5)), to: to,
-				subj: fmt.Sprintf("subj %d é", r.Intn(1000)), date: date})
+				subj: fmt.Sprintf("subj %d é", r.Intn(1000)), date: opDate})
 		case x < 52:
-			ops = append(ops, storeOp{kind: "get", box: box, id: pickID()})
+			id := pickID()
+			if r.Intn(8) == 0 && id < 9000 {
+				id = 20000 + 10*id + r.Intn(4) // the id of a message, spelled differently: no such message
+			}
+			ops = append(ops, storeOp{kind: "get", box: box, id: id})
 		case x < 57:
 			ops = append(ops, storeOp{kind: "latest", box: box})
 		case x < 67:
@@ -428,12 +444,16 @@ func genHistory(r *rand.Rand, p storeProfile, names []string, nOps int) []storeO
 			id := pickID()
 			if r.Intn(7) == 0 {
 				id = 9100 + r.Intn(3) // "latest", "", "LATEST": no message has such an id, also in a non-empty mailbox
+			} else if r.Intn(8) == 0 && id < 9000 {
+				id = 20000 + 10*id + r.Intn(4)
 			}
 			ops = append(ops, storeOp{kind: "seen", box: box, id: id})
 		case x < 87:
 			id := pickID()
 			if r.Intn(9) == 0 {
 				id = 9100 + r.Intn(3)
+			} else if r.Intn(8) == 0 && id < 9000 {
+				id = 20000 + 10*id + r.Intn(4)
 			}
 			ops = append(ops, storeOp{kind: "rm", box: box, id: id})
 		case x < 91:
